@@ -173,6 +173,18 @@ def rematchAll (rec : Rec) (a : AMode) (env : Env) (saved : Cursor) : List Nat â
         | some r2 => some (r2.prepend r1.raw r1.surv)
       | _ => some r1
 
+/-- The life of a state object that is a local of a `match()` frame (`state< S, R >`,
+    `change_state< S >`, ...): constructed before the rule is attempted, `success( in, outer... )`
+    exactly when the rule matched (`callSucc`: and the variant calls it in this apply mode), destroyed
+    when the frame is left â€” by return or by an exception. -/
+def stateScope (cx : Ctx) (outer : Nat) (callSucc : Bool) (r : Ret) : Ret :=
+  { r with raw := Ev.sctor (outer + 1) :: r.raw ++
+      (if r.res = .ok âˆ§ callSucc = true then [Ev.ssucc (outer + 1) (cx.rep r.st.cur) outer] else []) ++ [Ev.sdtor (outer + 1)] }
+
+@[simp] theorem stateScope_st (cx : Ctx) (o : Nat) (b : Bool) (r : Ret) : (stateScope cx o b r).st = r.st := rfl
+@[simp] theorem stateScope_res (cx : Ctx) (o : Nat) (b : Bool) (r : Ret) : (stateScope cx o b r).res = r.res := rfl
+@[simp] theorem stateScope_surv (cx : Ctx) (o : Nat) (b : Bool) (r : Ret) : (stateScope cx o b r).surv = r.surv := rfl
+
 def Catch.catches : Catch â†’ Exc â†’ Bool
   | .any, _ => true
   | .std, .foreign _ isStd => isStd
@@ -320,6 +332,8 @@ def body (cx : Ctx) (rec : Rec) (k : Nat) (kind : Kind) (a : AMode) (m : RMode) 
   | .enable c => rec c .action m env st
   | .disable c => rec c .nothing m env st
   | .action fam c => rec c a m { env with fam := fam } st
+  | .state _ c =>
+    (rec c a m { env with sd := env.sd + 1 } st).map (stateScope cx env.sd true)
 
 /-- `use_guard` of match.hpp: `match()` itself takes a `required` guard exactly when an
     `apply` or a `bool`-returning `apply0` will be called. -/
@@ -330,8 +344,8 @@ def hasAction (a : AMode) (act : ActionSpec) : Bool :=
   decide (a = .action) && (act.kind == .apply || act.kind == .apply0)
 
 /-- The `apply` / `apply0` observation for rule `i` matched from `saved` to `e`. -/
-def actEvent (cx : Ctx) (i : Nat) (act : ActionSpec) (saved e : Cursor) : Ev :=
-  if act.kind == .apply then Ev.apply i (cx.rep saved) (cx.rep e) else Ev.apply0 i (cx.rep e)
+def actEvent (cx : Ctx) (i : Nat) (act : ActionSpec) (sd : Nat) (saved e : Cursor) : Ev :=
+  if act.kind == .apply then Ev.apply i sd (cx.rep saved) (cx.rep e) else Ev.apply0 i sd (cx.rep e)
 
 inductive ActOut | noAction | throws | vetoes | accepts
   deriving DecidableEq, Repr
@@ -348,13 +362,13 @@ def actionOutcome (cx : Ctx) (i : Nat) (a : AMode) (act : ActionSpec) (saved e :
 /-- What match.hpp does after the rule body returned: the action call (only after a match),
     then `success` / `failure`, or `unwind` while an exception passes.  The cursor is not
     touched here; `saved` is `m.inputerator()`, the start of the match. -/
-def afterBody (cx : Ctx) (i : Nat) (a : AMode) (act : ActionSpec) (saved : Cursor) (r : Ret) : Ret :=
+def afterBody (cx : Ctx) (i : Nat) (a : AMode) (act : ActionSpec) (sd : Nat) (saved : Cursor) (r : Ret) : Ret :=
   match r.res with
   | .thr _ => { r with raw := r.raw ++ (if cx.unwind then [Ev.unwind i (cx.rep r.st.cur)] else []) }
   | .fail => { r with raw := r.raw ++ [Ev.failure i (cx.rep r.st.cur)] }
   | .ok =>
     let e := cx.rep r.st.cur
-    let aev := actEvent cx i act saved r.st.cur
+    let aev := actEvent cx i act sd saved r.st.cur
     match actionOutcome cx i a act saved r.st.cur with
     | .noAction => { r with raw := r.raw ++ [Ev.success i e] }
     | .throws =>
@@ -377,7 +391,7 @@ def nodeCore (cx : Ctx) (rec : Rec) (k : Nat) (i : Nat) (nd : Node) (a : AMode) 
     let act := cx.actOf env i nd
     let ug := useGuard a act
     (body cx rec k nd.kind a (if ug then .optional else m) env st).map fun r =>
-      let r := afterBody cx i a act st.cur r
+      let r := afterBody cx i a act env.sd st.cur r
       let r := { r with raw := Ev.start i (cx.rep st.cur) :: r.raw }
       guardRestore (if ug then .required else .optional) st.cur r
 
@@ -418,7 +432,12 @@ def nodeCall (cx : Ctx) (rec : Rec) (k : Nat) (i : Nat) (a : AMode) (m : RMode) 
      | .disableAction => nodeCore cx rec k i nd .nothing m env st
      | .enableAction => nodeCore cx rec k i nd .action m env st
      | .limitDepth n => limitDepthCall cx (nodeCore cx rec k i nd a m env) n st
-     | .limitBytes n => limitBytesCall cx (nodeCore cx rec k i nd a m env) n st).map (bracket cx i a m st)
+     | .limitBytes n => limitBytesCall cx (nodeCore cx rec k i nd a m env) n st
+     | .changeState _ =>
+       (nodeCore cx rec k i nd a m { env with sd := env.sd + 1 } st).map (stateScope cx env.sd (decide (a = AMode.action)))
+     | .changeActionAndState fam _ =>
+       (rec i a m { env with fam := fam, sd := env.sd + 1 } st).map (stateScope cx env.sd (decide (a = AMode.action)))
+     ).map (bracket cx i a m st)
 
 /-- The matcher with fuel. -/
 def run (cx : Ctx) (fuel : Nat) (i : Nat) (a : AMode) (m : RMode) (env : Env) (st : St) : Out :=
